@@ -308,13 +308,21 @@ def _long(wd, shard, ctx, res, only):
             x[near] = ((bins[near] + 1) + ((bins[near] - 1) % nbins + 1)) / 2.0
             res.count("long_near_edge_samples", int(near.sum()))
             want = np.broadcast_to((np.arange(nbins) + 1.0)[None, None, :], (nints, 1, nbins))
+            # cells the model leaves empty (a period commensurate with the sampling time populates only some bins) have no defined mean
+            sub = np.floor(tv / (n / nints)).astype(np.int64)
+            cnt = np.bincount(sub * nbins + bins, minlength=nints * nbins).reshape(nints, 1, nbins)
+            filled = cnt > 0
+            if float(np.max(cnt * want)) >= 2.0**24:
+                # the cube accumulates in float32: a cell sum of 2**24 or more is no longer exact (outside the quantifier's exact-sum regime)
+                res.skip("cell_sum_not_exact_in_float32")
+                continue
             # TimeSeries.fold
             res.evaluations += 1
             hdr = Header(filename="t.tim", data_type="time series", nchans=1, foff=-1.0, fch1=1400.0, nbits=32, tsamp=TSAMP, tstart=58000.0, nsamples=n, dm=0.0)
             try:
                 cube = np.asarray(TimeSeries(x, hdr).fold(period, accel=accel, nbins=nbins, nints=nints).data, dtype=np.float64)
-                if cube.shape != want.shape or not np.all(np.abs(cube - want) <= 1e-3):
-                    k = np.unravel_index(int(np.argmax(np.abs(cube - want))), want.shape) if cube.shape == want.shape else None
+                if cube.shape != want.shape or not np.all(np.abs(cube - want)[filled] <= 1e-3):
+                    k = np.unravel_index(int(np.argmax(np.where(filled, np.abs(cube - want), 0))), want.shape) if cube.shape == want.shape else None
                     res.violation({"site": "TimeSeries.fold", "symptom": "cube differs from the mean of the samples the phase model assigns", "long": True}, case,
                                   f"n={n} P={P} accel={accel} nbins={nbins}: cell {k}: got {cube[k] if k else cube.shape} want {want[k] if k else want.shape}")
                 else:
@@ -334,9 +342,9 @@ def _long(wd, shard, ctx, res, only):
                 try:
                     cube = np.asarray(fil.fold(period, 0.0, accel=accel, nbins=nbins, nints=nints, nbands=2, gulp=g, quiet=True, description="vf").data, dtype=np.float64)
                     want2 = np.broadcast_to((np.arange(nbins) + 1.0)[None, None, :], (nints, 2, nbins))
-                    if cube.shape != want2.shape or not np.all(np.abs(cube - want2) <= 1e-3):
+                    if cube.shape != want2.shape or not np.all(np.abs(cube - want2)[np.broadcast_to(filled, want2.shape)] <= 1e-3):
                         res.violation({"site": "Filterbank.fold", "symptom": "cube differs from the mean of the samples the phase model assigns", "long": True}, {**case, "inner": [accel, nbins, nints]},
-                                      f"n={n} P={P} accel={accel} gulp={g}: max deviation {float(np.max(np.abs(cube - want2))) if cube.shape == want2.shape else cube.shape}")
+                                      f"n={n} P={P} accel={accel} gulp={g}: max deviation {float(np.nanmax(np.abs(cube - want2))) if cube.shape == want2.shape else cube.shape}")
                     else:
                         res.outcome("filterbank/long_ok")
                         res.nontrivial += 1
